@@ -45,10 +45,12 @@ ASSUMPTIONS = ["claimed: the coherence clause (all links), the step-link equalit
                "first-order tightness differentiates the real code with jax.jvp after replacing lax.stop_gradient by the identity in the harness process (total derivative of the returned value)"]
 
 
-def coherence_case(link, Dx, Dy, Da, Dk, signs=None, semi=(), timeout=600, prop=PROP):
+def coherence_case(link, Dx, Dy, Da, Dk, signs=None, semi=(), timeout=600, prop=PROP, explicit_Sigma=False):
+    """explicit_Sigma: the optional constructor keyword Sigma= is passed with an UNRELATED positive definite matrix; the model's
+    homoscedastic covariance is AA' by definition, so the argument must not change anything"""
     sg = "".join("p" if s > 0 else "m" for s in (signs or []))
-    cid = f"{prop}/het-cond-x/{link}/Dx{Dx}Dy{Dy}Da{Da}Dk{Dk}" + (f"/h{sg}" if sg else "") + ("/semi-" + "-".join(semi) if semi else "")
-    cfg = dict(clause="coherence of condition_on_x", link=link, Dx=Dx, Dy=Dy, Da=Da, Dk=Dk, h_signs=signs, concrete_blocks=list(semi))
+    cid = f"{prop}/het-cond-x/{link}/Dx{Dx}Dy{Dy}Da{Da}Dk{Dk}" + (f"/h{sg}" if sg else "") + ("/semi-" + "-".join(semi) if semi else "") + ("/explicit-Sigma" if explicit_Sigma else "")
+    cfg = dict(clause="coherence of condition_on_x", link=link, Dx=Dx, Dy=Dy, Da=Da, Dk=Dk, h_signs=signs, concrete_blocks=list(semi), explicit_Sigma_argument=explicit_Sigma)
     N = 2
 
     def declare(b):
@@ -63,6 +65,8 @@ def coherence_case(link, Dx, Dy, Da, Dk, signs=None, semi=(), timeout=600, prop=
         else:
             b.free("A", (1, Dy, Da))
         b.free("x", (1, Dx)); b.free("Ww", (Dk, Dx))
+        if explicit_Sigma:
+            b.spd("Sarg", 1, Dy)
         # the value the link's argument takes at the point x (see module docstring)
         b.pos("e", (Dk,))
 
@@ -81,7 +85,11 @@ def coherence_case(link, Dx, Dy, Da, Dk, signs=None, semi=(), timeout=600, prop=
         b.derived("W", (Dk, Dx + 1), w0)
 
     def fn(**A):
-        c = make_het(link, {"M": A["M"], "bv": A["bv"], "A": A["A"], "W": A["W"]})
+        if explicit_Sigma:
+            from gaussian_toolbox import approximate_conditional as ac
+            c = getattr(ac, HET[link])(M=A["M"], b=A["bv"], A=A["A"], W=A["W"], Sigma=A["Sarg"])
+        else:
+            c = make_het(link, {"M": A["M"], "bv": A["bv"], "A": A["A"], "W": A["W"]})
         d = c.condition_on_x(A["x"])
         S, L, ld = c.get_conditional_cov(A["x"], invert=True)
         return {"f": fields(d), "cov_only": c.get_conditional_cov(A["x"]), "S": S, "L": L, "ld": ld, "mu": c.get_conditional_mu(A["x"])}
@@ -619,6 +627,8 @@ def cases(tier, seed=0):
         if tier == "thorough":
             out.append(coherence_case(link, 2, 3, 3, 2, semi=("A",), timeout=1800))
             out.append(coherence_case(link, 3, 2, 2, 2, timeout=1800))
+    for link in ("exp", "cosh", "step", "relu"):
+        out.append(coherence_case(link, 1, 2, 2, 1, signs=[1] if link in ("step", "relu") else None, explicit_Sigma=True))
     for link in ("step", "relu"):
         for (Dx, Dy, Da, Dk) in shapes:
             for signs in itertools.product((1, -1), repeat=Dk):
